@@ -51,7 +51,7 @@ package val
 //@   requires v != nil
 //@   nopanic
 //@   pure
-//@   ensures result == isIntegral(v.V)
+//@   ensures result == (isIntegral(v.V) && inInt64(v.V))
 
 //@ func init
 //@   props C01 C04
